@@ -236,6 +236,16 @@ let suite_decode full path =
               | 'R' -> decode_with !session (fun r' -> session := r')
               | 'C' -> st := Decoder.cleanup_buffers !st;
                   Buffer.add_string buf (Printf.sprintf "cleanup %s" (state_str full !st))
+              | 'X' ->
+                  (match Decoder.get_last_picture !st with
+                   | None -> Buffer.add_string buf "pipe:none"
+                   | Some d ->
+                       (match Pipeline.pipeline d with
+                        | Prelude.Ok rgba ->
+                            let l = Stdlib.List.map i rgba in
+                            Buffer.add_string buf (Printf.sprintf "pipe:ok:%d:%d:%s" (Stdlib.List.length l)
+                              (i (Recon.d_width d) * i (Recon.d_height d) * 4) (if full then hex_of_ints l else fnv l))
+                        | _ -> Buffer.add_string buf "panic"; dead := true))
               | 'B' ->
                   (match Reader.read_bits (z 32) (z (int_of_string arg)) !session with
                    | Prelude.Ok (v, r') -> session := r'; Buffer.add_string buf (Printf.sprintf "bits=%d" (i v))
